@@ -5479,6 +5479,18 @@ evhttp_uri_join(const struct evhttp_uri *uri, char *buf, size_t limit)
 
 		if (uri->path && uri->path[0] != '/' && uri->path[0] != '\0')
 			goto err;
+	} else {
+		/* Without an authority there is no place for userinfo or port,
+		 * a path beginning with "//" would be read back as an authority
+		 * and, without a scheme, a colon in the first path segment would
+		 * be read back as a scheme (RFC3986 3.3, 4.2): refuse instead of
+		 * producing a string that parses into something else. */
+		if (uri->userinfo || uri->port >= 0)
+			goto err;
+		if (uri->path && uri->path[0] == '/' && uri->path[1] == '/')
+			goto err;
+		if (uri->path && !uri->scheme && !path_matches_noscheme(uri->path))
+			goto err;
 	}
 
 	if (uri->path)
@@ -5628,6 +5640,9 @@ evhttp_uri_set_host(struct evhttp_uri *uri, const char *host)
 int
 evhttp_uri_set_unixsocket(struct evhttp_uri *uri, const char *unixsocket)
 {
+	/* "unix:<path>:" ends at the first colon, so the path cannot have one */
+	if (unixsocket && strchr(unixsocket, ':'))
+		return -1;
 	URI_SET_STR_(unixsocket);
 	return 0;
 }
